@@ -61,7 +61,7 @@ def run_unit(A, unit, rep, tier):
             #     before are detached and writes through them are lost
             for rid in repoint:
                 n = g.nodes[rid]
-                rep.fail("C06.g", norm_key("C06.g", n.func, n.stmt),
+                rep.fail("C06.g", norm_key("C06.g", n.func, "repoint"),
                          f"{n.func}: `{n.stmt}` replaces this object's root container by the container stored in the shared buffer entry; when another object on the same file created that entry, "
                          "every nested handle obtained from this object earlier is detached from the tree and writes through it never reach the buffer or the file",
                          [n.where() + ": " + n.stmt], g.label)
